@@ -1,8 +1,167 @@
-/- Driver handler owned by property C02: `c02 <args…>` requests. -/
+/- Driver handler owned by property C02: `c02 <args…>` requests.
+
+   `c02 type <tystr> <fixed 0/1> [<path>,<path>…]`
+       tystr: `U` | `N` | `L<kind>.<size>.<align>` | `R[t,…]` | `E[V[t,…]V[…]…]`
+       path:  steps joined by `/`, step = `f<i>` | `v<v>.<i>`
+     → `lay=…;ref=…;nc=…;nd=…;lt=…;paths=…;clone=…;drop=…;eq=…`
+   `c02 spec <program>` → see `RotoV.Model.ValueSpec` (behavioural oracle)
+-/
 import Driver.Util
+import RotoV.Model.LayoutOps
+import RotoV.Model.ValueSpec
 
 namespace Driver.C02
+open RotoV
+open RotoV.Layout
+open RotoV.Gen.LayoutGen
 
-def handle (_args : List String) : String := "bad-op"
+def kindName : LeafKind → String
+  | .int => "int" | .float => "float" | .string => "string" | .copyRef => "copyRef"
+  | .list => "list" | .rtCopy => "rtCopy" | .rtClone => "rtClone"
+
+def kindOf : String → Option LeafKind
+  | "int" => some .int | "float" => some .float | "string" => some .string
+  | "copyRef" => some .copyRef | "list" => some .list | "rtCopy" => some .rtCopy
+  | "rtClone" => some .rtClone | _ => none
+
+mutual
+partial def showTy : Ty → String
+  | .unit => "U"
+  | .never => "N"
+  | .leaf k s a => s!"L{kindName k}.{s}.{a}"
+  | .record fs => "R[" ++ ",".intercalate (showTys fs) ++ "]"
+  | .enum vs => "E[" ++ String.join (showVars vs) ++ "]"
+partial def showTys : Tys → List String
+  | .nil => []
+  | .cons t ts => showTy t :: showTys ts
+partial def showVars : Vars → List String
+  | .nil => []
+  | .cons v vs => ("V[" ++ ",".intercalate (showTys v) ++ "]") :: showVars vs
+end
+
+/-- take the characters up to (not including) the first of `stops` -/
+def takeUntil (stops : List Char) : List Char → List Char × List Char
+  | [] => ([], [])
+  | c :: cs => if stops.contains c then ([], c :: cs) else
+    let (a, b) := takeUntil stops cs
+    (c :: a, b)
+
+mutual
+partial def parseTy : List Char → Option (Ty × List Char)
+  | 'U' :: r => some (.unit, r)
+  | 'N' :: r => some (.never, r)
+  | 'L' :: r =>
+    let (body, rest) := takeUntil [',', ']'] r
+    match (String.ofList body).splitOn "." with
+    | [k, s, a] =>
+      match kindOf k, s.toNat?, a.toNat? with
+      | some k, some s, some a => some (.leaf k s a, rest)
+      | _, _, _ => none
+    | _ => none
+  | 'R' :: '[' :: r =>
+    match parseTys r with
+    | some (ts, rest) => some (.record (Tys.ofList ts), rest)
+    | none => none
+  | 'E' :: '[' :: r =>
+    match parseVars r with
+    | some (vs, rest) => some (.enum (Vars.ofList vs), rest)
+    | none => none
+  | _ => none
+/-- comma separated types up to and including the closing `]` -/
+partial def parseTys : List Char → Option (List Ty × List Char)
+  | ']' :: r => some ([], r)
+  | cs =>
+    match parseTy cs with
+    | none => none
+    | some (t, ',' :: r) =>
+      match parseTys r with
+      | some (ts, rest) => some (t :: ts, rest)
+      | none => none
+    | some (t, ']' :: r) => some ([t], r)
+    | some _ => none
+partial def parseVars : List Char → Option (List Tys × List Char)
+  | ']' :: r => some ([], r)
+  | 'V' :: '[' :: r =>
+    match parseTys r with
+    | none => none
+    | some (ts, rest) =>
+      match parseVars rest with
+      | some (vs, rest') => some (Tys.ofList ts :: vs, rest')
+      | none => none
+  | _ => none
+end
+
+def parseStep (s : String) : Option Proj :=
+  match s.toList with
+  | 'f' :: r => (String.ofList r).toNat?.map Proj.field
+  | 'v' :: r =>
+    match (String.ofList r).splitOn "." with
+    | [v, i] =>
+      match v.toNat?, i.toNat? with
+      | some v, some i => some (.variantField v i)
+      | _, _ => none
+    | _ => none
+  | _ => none
+
+def parsePath (s : String) : Option (List Proj) :=
+  (s.splitOn "/").mapM parseStep
+
+def baseName : Base → String
+  | .val => "val" | .ret => "ret" | .left => "left" | .right => "right"
+
+def showOp : Op → String
+  | .read b off size => s!"read {baseName b}+{off} {size}"
+  | .write b off => s!"write {baseName b}+{off} t"
+  | .copy off size => s!"copy ret+{off} val+{off} {size}"
+  | .clone off => s!"clone ret+{off} val+{off}"
+  | .callClone off t => s!"call clone ret+{off} val+{off} {showTy t}"
+  | .drop off => s!"drop val+{off}"
+  | .callDrop off t => s!"call drop val+{off} {showTy t}"
+  | .eq off => s!"eq left+{off} right+{off}"
+  | .callEq off t => s!"call eq left+{off} right+{off} {showTy t}"
+  | .icmp => "icmp"
+  | .fcmp => "fcmp"
+  | .ret b => s!"ret {b}"
+
+def showOps : Res (List Op) → String
+  | .panic => "panic"
+  | .ok ops => "|".intercalate (ops.map showOp)
+
+def isAggregate : Ty → Bool
+  | .record _ | .enum _ => true
+  | _ => false
+
+def answerType (t : Ty) (fixed : Bool) (paths : List (List Proj)) : String :=
+  let lay := match layoutOf t with
+    | none => "none"
+    | some l => s!"{l.size}.{l.align}"
+  let rf := match isReferenceType t with
+    | none => "none" | some true => "t" | some false => "f"
+  let lt := match lowerType t with
+    | .panic => "panic" | .ok none => "none" | .ok (some .pointer) => "ptr"
+    | .ok (some (.int n)) => s!"{n}" | .ok (some (.float n)) => s!"{n}"
+  let ps := paths.map fun p =>
+    match locate t p 0 with
+    | .panic => "panic" | .ok none => "none" | .ok (some (o, _)) => s!"{o}"
+  let agg := isAggregate t
+  let c := if agg then showOps (cloneOps t) else "-"
+  let d := if agg then showOps (dropOps t) else "-"
+  let e := if agg then showOps (eqOps fixed t) else "-"
+  s!"lay={lay};ref={rf};nc={if needsClone t then 1 else 0};nd={if needsDrop t then 1 else 0};lt={lt};paths={",".intercalate ps};clone={c};drop={d};eq={e}"
+
+def handle (args : List String) : String :=
+  match args with
+  | "type" :: ts :: fixed :: rest =>
+    match parseTy ts.toList with
+    | some (t, []) =>
+      let paths := match rest with
+        | [] => some []
+        | p :: _ => (p.splitOn ",").mapM parsePath
+      match paths with
+      | some ps => answerType t (fixed == "1") ps
+      | none => "bad-path"
+    | _ => "bad-type"
+  | "spec" :: rest => RotoV.ValueSpec.handle rest
+  | _ => "bad-op"
 
 end Driver.C02
